@@ -78,10 +78,15 @@ def main():
         if hits:
             print('BROKEN: forbidden constructs in the Lean sources:\n  ' + '\n  '.join(hits))
             return 2
-        common.lake_build(state)
+        common.lake_build(state, getattr(mod, 'EXTRA_BUILD', ()))
         theorems = list(mod.THEOREMS)
+        gen_theorems = list(getattr(mod, 'GEN_THEOREMS', []))
         if state.build_ok:
             common.audit(state, pid, theorems, [mod.MODULE] + list(getattr(mod, 'EXTRA_IMPORTS', [])))
+            if gen_theorems and state.extra_ok:
+                # obligations over what was translated from /repo in this run (built as a separate target)
+                common.audit(state, pid, gen_theorems, list(getattr(mod, 'GEN_IMPORTS', [])))
+            theorems = theorems + gen_theorems
         unproved = []
         if not state.build_ok:
             unproved = ['(lake build failed)']
@@ -93,7 +98,8 @@ def main():
 
         state.leanchecker = None
         if state.build_ok and args.tier == 'thorough' and not unproved:
-            ok, log = common.leanchecker([mod.MODULE] + list(getattr(mod, 'EXTRA_IMPORTS', [])))
+            ok, log = common.leanchecker([mod.MODULE] + list(getattr(mod, 'EXTRA_IMPORTS', [])) +
+                                         (list(getattr(mod, 'GEN_IMPORTS', [])) if state.extra_ok else []))
             state.leanchecker = 'ok' if ok else 'FAILED: ' + log[-400:]
             if not ok:
                 unproved.append('(leanchecker rejected the compiled module)')
